@@ -1138,14 +1138,18 @@ func (r *Resolver) buildIterator(ctx context.Context, req *Request, iter storage
 	// STEP 3: Build filter chain
 	iterFilters := make([]iterator.FilterFunc[*openfgav1.TupleKey], 0, 3)
 	iterFilters = append(iterFilters, pre...)
-	if visited != nil {
-		iterFilters = append(iterFilters, BuildUniqueTupleKeyFilter(visited, visitedKey))
-	}
 
 	// STEP 4: Condition filter - evaluates conditions at retrieval time
 	// This uses the cached tuple's condition context + request context
 	if len(conditions) > 1 || conditions[0] != authzGraph.NoCond {
 		iterFilters = append(iterFilters, BuildConditionTupleKeyFilter(ctx, r.model, conditions, req.GetContext()))
+	}
+
+	// STEP 5: Visited filter. It runs after the condition filter: a tuple whose condition does not hold
+	// does not lead anywhere, so it must not mark its target as visited (the target may be reachable
+	// through another tuple whose condition holds).
+	if visited != nil {
+		iterFilters = append(iterFilters, BuildUniqueTupleKeyFilter(visited, visitedKey))
 	}
 
 	if len(iterFilters) > 0 {
